@@ -585,6 +585,13 @@ class Sym:
         else:
             elt = self.ev(e.elt, env2, p, lp)  # type: ignore[attr-defined]
             kind = {"ListComp": "list", "SetComp": "set", "GeneratorExp": "gen"}[type(e).__name__]
+        # a comprehension over a literal tuple/list is the literal of its instances:
+        # [f(w) for w in (a, b)]  ==  [f(a), f(b)]
+        if len(gens) == 1 and gens[0][1] == TRUE and gens[0][0][0] in ("tuple", "list") and 1 <= len(gens[0][0]) - 1 <= 8 and kind != "dict":
+            it = gens[0][0]
+            var = ("elem", it, len(loops))
+            items = tuple(subst(elt, lambda t, v=v: v if t == var else None) for v in it[1:])
+            return ("list",) + items
         return ("comp", kind, elt, tuple(gens))
 
     def _fresh(self, name: str, val: Term) -> Term:
@@ -629,8 +636,23 @@ class Sym:
         # reducers ignore the container kind of a comprehension argument
         if last in ("max", "min", "sum", "any", "all", "set", "sorted", "list", "tuple", "frozenset") and len(args) == 1 and args[0][0] == "comp" and args[0][1] in ("list", "gen", "set" if last in ("max", "min", "any", "all", "set", "frozenset") else "gen"):
             args = (("comp", "gen") + args[0][2:],)
+        if last in ("max", "min") and len(args) == 1 and not kws and args[0][0] in ("list", "tuple") and len(args[0]) >= 3:
+            args = args[0][1:]  # max([a, b]) == max(a, b)
         if last in ("max", "min", "maximum", "minimum") and len(args) >= 2 and not kws:
             args = tuple(sorted(args, key=tkey))
+        if func[0] == "ifexp" and all(b[0] == "name" or (b[0] == "attr" and b[1] == ("name", "self")) for b in func[2:4]):
+            # (f if c else g)(args)  ==  f(args) if c else g(args): a callee chosen ahead of the call
+            outs = []
+            for b, c in ((func[2], func[1]), (func[3], mk_not(func[1]))):
+                bp = mk_and([path, c])
+                bt: Term = ("call", b, args, kws)
+                self._record("call", e, b, bt, bp, loops)
+                fake = ast.Call(func=ast.Name(id=b[1], ctx=ast.Load()) if b[0] == "name" else ast.Attribute(value=ast.Name(id="self", ctx=ast.Load()), attr=b[2], ctx=ast.Load()), args=e.args, keywords=e.keywords)
+                ast.copy_location(fake, e)
+                ast.copy_location(fake.func, e)
+                inl = self._inline(fake, b, args, kws, env, bp, loops)
+                outs.append(inl if inl is not None else bt)
+            return mk_ifexp(func[1], outs[0], outs[1])
         term: Term = ("call", func, args, kws)
         self._record("call", e, func, term, path, loops)
         inl = self._inline(e, func, args, kws, env, path, loops)
@@ -820,6 +842,9 @@ class Sym:
                 after = mk_and([path, mk_or([mk_and([c] + x1), mk_and([mk_not(c)] + x2)])])
             return Outcome(merged, ret), after
         if isinstance(st, (ast.For, ast.AsyncFor)):
+            un = self._for_unrolled(st, env, path, loops)
+            if un is not None:
+                return un
             return self._for(st, env, path, loops), path
         if isinstance(st, ast.While):
             c = _strip_bool(ev(st.test))
@@ -959,6 +984,34 @@ class Sym:
                 merged[k] = mk_ifexp(extra, e.get(k, UNDEF), cur.get(k, UNDEF))
             cur = merged
         return cur if cur is not None else fallback
+
+    def _for_unrolled(self, st: ast.For, env: dict, path: Term, loops: tuple) -> Optional[tuple[Outcome, Term]]:
+        """A loop over a literal tuple/list of at most 8 entries (a table of cases written in place) is the
+        sequence of its iterations."""
+        if st.orelse or any(isinstance(n, (ast.Break, ast.Continue)) for b in st.body for n in ast.walk(b)):
+            return None
+        if not isinstance(st.iter, (ast.Tuple, ast.List)) and not (isinstance(st.iter, ast.Name) and env.get(st.iter.id, ("?",))[0] in ("tuple", "list")):
+            return None
+        it = self.ev(st.iter, env, path, loops)
+        lit = it
+        while lit[0] == "obj":
+            lit = lit[2]
+        if lit[0] not in ("tuple", "list") or not (1 <= len(lit) - 1 <= 8) or any(x[0] == "star" for x in lit[1:]):
+            return None
+        cur: Optional[dict] = env
+        ret: Optional[Term] = None
+        p = path
+        for el in lit[1:]:
+            e2 = dict(cur)
+            self._bind_target(st.target, el, e2)
+            o = self.block(st.body, e2, p, loops)
+            if o.ret is not None:
+                ret = o.ret if ret is None else self._fill(ret, o.ret)
+            if o.env is None:
+                cur = None
+                break
+            cur, p = o.env, o.path
+        return Outcome(cur, ret, p), p
 
     def _for(self, st: ast.For, env: dict, path: Term, loops: tuple) -> Outcome:
         it = self.ev(st.iter, env, path, loops)
@@ -1186,6 +1239,10 @@ def _match(p: Any, t: Any, b: dict) -> Optional[dict]:
                 return r
             return None
         return _match_ac(p[0], list(p[1:]), list(t[1:]), b)
+    if p[0] == "call" and t[0] == "call" and len(p) == 4 and len(t) == 4 and not p[3] and not t[3] and _commutative_call(p[1]) and len(p[2]) >= 2:
+        # max(a, b) = max(b, a): the arguments are sorted in the normal form, but a metavariable sorts differently
+        r = _match(p[1], t[1], b)
+        return _match_ac("args", list(p[2]), list(t[2]), r) if r is not None else None
     if len(p) != len(t):
         return None
     if (p[0] == "cmp" and t[0] == "cmp" and p[1] == t[1] and p[1] in SYMM) or (p[0] == "bin" and t[0] == "bin" and p[1] == t[1] and p[1] in ("BitAnd", "BitOr", "BitXor")):
@@ -1202,6 +1259,10 @@ def _match(p: Any, t: Any, b: dict) -> Optional[dict]:
         if cur is None:
             return None
     return cur
+
+
+def _commutative_call(f: Any) -> bool:
+    return isinstance(f, tuple) and ((f[0] == "name" and f[1] in ("max", "min")) or (f[0] == "attr" and f[2] in ("maximum", "minimum")))
 
 
 def _match_ac(tag: str, ps: list, ts: list, b: dict) -> Optional[dict]:
